@@ -18,8 +18,11 @@ accepted and the parent takes over the child's root and content); a merge is a s
 events on the parent (`merge_is_events`), so the collector algebra and `C04_complete_partial` cover rounds with merges.
 
 Publication into the store: `view_resolves` (a trie's own view resolves in its layered store, closed form) and
-`merge_resolves_partial` (after an accepted merge the parent's root resolves in the parent's layered store, under the
-event discipline of the parent's event list); the unconditional statement is the `def MergeResolves`.
+`merge_resolves_partial` / `merge_resolves_one_child` / `run_resolves` / `resolves_interp` (after accepted merges - any
+number, nested - the parent's root resolves in the parent's layered store; the discipline is proved, `order_never_stuck`);
+store-READING operations and their refinement to the value model (`storeOps_refine`, `child_ops_read_through`), and the
+frame statements over the interpreter (`C03_isolation`, `C03_discard`, `C03_stale_rejected`, `C03_merge_publishes`).
+`def MergeResolves` is the statement without the side conditions (`KeyInjOn`, canonical start tree), kept as a def.
 Before fix 8b1f6ed it was false of the code for some replay orders (corpus/C03/fixed_merge_order.ops); `mergeChanges`
 now replays the changes in the order computed by `orderChanges`, which the model contains literally.
 -/
@@ -333,12 +336,13 @@ theorem order_never_stuck (H : Bytes → Bytes) (U : Ref → Prop) (hU : KeyInjO
   have h := trieRun_not_stuck H U hU hrun hw hUt c0 hfresh cs hperm
   exact ⟨h, orderChanges_good H cs h⟩
 
-/-- The full publication statement: after an accepted merge of a child whose own view resolved, the parent's new root
-    resolves in the parent's layered store (`get` = read-through of the parent's level and everything below it).
-    Proved as `merge_resolves_partial` under the event discipline of the parent's whole event list (own operations and
-    merge replays); the discipline itself is proved for a trie's own operations (`view_resolves`), not yet for the
-    replay of a child's collector.  (Without `orderChanges` it is false: corpus/C03/fixed_merge_order.ops, the parent's
-    store lost a live node when a re-creation was replayed before the replacement of the same key.) -/
+/-- The publication statement WITHOUT side conditions: after an accepted merge of a child whose own view resolved, the
+    parent's new root resolves in the parent's layered store.  It is proved with the side conditions "canonical start
+    tree, key injectivity on the references of the run": `merge_resolves_one_child` (one child), `run_resolves` (any run
+    with nested merges), `resolves_interp` (every history of the interpreter); the discipline of the replay of a child's
+    collector is proved (`merge_calls_ok`, `trieRun_discipline`) and the replay order is never stuck (`order_never_stuck`).
+    (Without `orderChanges` it is false: corpus/C03/fixed_merge_order.ops.)  Kept as a `def`: without `KeyInjOn` it is not
+    provable (hash collisions). -/
 def MergeResolves : Prop :=
   ∀ (H : Bytes → Bytes) (below : Bytes → Option Bytes) (p c p' : Trie) (changes : List (Change Ref)),
     changes.Perm c.cc.getChanges →
